@@ -303,7 +303,7 @@ def c08(run: Run):
         garbage_field = rng.pick([0, L + 3, 2**63, U64MAX - 1])
         run.count("eos" if eos else "noeos")
         # --- a size in effect
-        for n in sorted(set([L, L + 1, max(0, L - 1), 0, 2**62])):
+        for n in sorted(set([L, L + 1, max(0, L - 1), 0, 2**62, 2**63, 2**63 + L, U64MAX - 1])):
             forms = [("hdr", lzma_header(m["lc"], m["lp"], m["pb"], m["dict"], n) + pay, 13),
                      ("hup:%d" % n, lzma_header(m["lc"], m["lp"], m["pb"], m["dict"], garbage_field) + pay, 13),
                      ("up:%d" % n, hdr5 + pay, 5)]
@@ -608,9 +608,39 @@ def c11(run: Run):
                 run.add("lzma us=hdr rk=%s in=%s" % (rk, (data + trail).hex()), oracle=exp_err(), tag="c11:lzma-marker-trailing")
             else:
                 run.add("lzma us=hdr rk=%s in=%s" % (rk, data.hex()), oracle=used_is(len(data), m["out"]), tag="c11:lzma-marker")
+    # a size in effect on a stream that ALSO carries an end marker: the decoder stops at the size; what it
+    # consumed, its verdict and its output must not depend on what follows
+    for m in [x for x in mats if x["eos"] and len(x["out"]) > 0][:sizes(run.tier, 20, 150)]:
+        L = len(m["out"])
+        base = lzma_header(m["lc"], m["lp"], m["pb"], m["dict"], L) + m["payload"]
+        ids = []
+        for trail in (b"", b"\x00", rng.bytes(7), rng.bytes(40)):
+            ids.append(run.add("lzma us=hdr in=%s" % (base + trail).hex(), oracle=exp_ok_out(m["out"]), tag="c11:size+marker"))
+        run.trail_groups = getattr(run, "trail_groups", []) + [ids]
+    # the other option forms, under small reader buffers (the ignored size field must really be skipped)
+    for m in [x for x in mats if not x["eos"]][:sizes(run.tier, 20, 150)]:
+        L, P = len(m["out"]), len(m["payload"])
+        trail = rng.bytes(rng.below(9))
+        for us, hdr in (("hup:%d" % L, lzma_header(m["lc"], m["lp"], m["pb"], m["dict"], rng.pick([0, L + 5, 2**63]))),
+                        ("up:%d" % L, lzma_header(m["lc"], m["lp"], m["pb"], m["dict"], "skip"))):
+            rk = rng.pick(["flat", "buf:1", "buf:3", "buf:5", "buf:12", "cur"])
+            run.add("lzma us=%s rk=%s in=%s" % (us, rk, (hdr + m["payload"] + trail).hex()), oracle=used_is(len(hdr) + P, m["out"]),
+                    tag="c11:lzma-provided")
     for m in [x for x in mats if not x["eos"]][:sizes(run.tier, 25, 200)]:
         trail = rng.bytes(rng.below(9) + 1)
         L, P = len(m["out"]), len(m["payload"])
+        # reset(None) keeps the size set by an earlier reset(Some(..)), not the constructor's
+        A = rng.pick([0, L + 3, 1])
+
+        def hist2_oracle(res, meta, peak, out=m["out"], P=P):
+            toks = res.split(" ")
+            want = "ok:%d:%s" % (P, out_repr(out))
+            if len(toks) < 5 or toks[2] != want or toks[4] != want:
+                return "raw decoder: size set by reset(Some) not kept across reset(None): %s (wanted %s twice)" % (res[:120], want[:50])
+            return None
+        run.add("rawlzma lc=%d lp=%d pb=%d dict=%d us=%d ml=none ops=rs:%d;d:%s;r;d:%s" % (
+            m["lc"], m["lp"], m["pb"], m["dict"], A, L, (m["payload"] + trail).hex(), (m["payload"] + trail).hex()),
+            oracle=hist2_oracle, tag="c11:raw-reset-keeps-size")
 
         def hist_oracle(res, meta, peak, out=m["out"], P=P):
             toks = res.split(" ")
@@ -635,6 +665,16 @@ def c11(run: Run):
         trail = rng.pick([b"\x00", b"\x00" * 4, rng.bytes(rng.below(12) + 1)])
         rk = rng.pick(rks)
         run.add("xz rk=%s in=%s" % (rk, (f["data"] + trail).hex()), oracle=exp_err(), tag="c11:xz-trailing")
+
+    def post(run):
+        for ids in getattr(run, "trail_groups", []):
+            ref = core.fields(run.impl[ids[0]])
+            for k in ids[1:]:
+                f = core.fields(run.impl[k])
+                if v(run.impl[k]) != v(run.impl[ids[0]]) or f.get("used") != ref.get("used") or f.get("out") != ref.get("out"):
+                    run.report_violation(k, run.cases[int(k)][1], run.cases[int(k)][2], run.impl[k],
+                                         "result depends on the bytes that follow the payload (without them: `%s`)" % run.impl[ids[0]][:100])
+    run.post = post
 
 
 # ----------------------------------------------------------------- C12
